@@ -29,6 +29,7 @@ PINNED = [
     ("F16", '<start> ::= <l>\n<l> ::= <l> <l> | "a" | ""\n', "a", "complete"),
     ("F16", '<start> ::= <e> "."\n<e> ::= <e> <o> | "x"\n<o> ::= "y"?\n', "x", "prefix"),
     ("F17", '<start> ::= "a" ("b"? "c")+ "z"?\n', "a", "prefix"),
+    ("F17", '<start> ::= <o> <e>\n<e> ::= <e> <t> <o> | <t>\n<o> ::= "y"?\n<t> ::= <o> "x"\n', "yx", "prefix"),
     ("F29", '<start> ::= ("e" | r"[01]")+\n', "1", "prefix"),
 ]
 
@@ -243,7 +244,9 @@ def run(tier, seed):
     fam = fam[:48] if tier == "quick" else fam
     for (spec, cyclic), words in zip(fam, pmap(_family_words, [(s_[0], seed + i) for i, s_ in enumerate(fam)])):
         # cyclic members: first tree and first prefix tree only (their forests are endless: finding F16)
-        jobs.append((spec, "<start>", words, 80, {w: 999 for w in words} if cyclic else {}, 20.0, not cyclic, False))
+        # whole prefix-mode forests are not requested for the family: with a left recursion whose operands begin with an
+        # empty-deriving symbol they do not end (finding F17, pinned) - first prefix tree only
+        jobs.append((spec, "<start>", words, 80, {w: 999 for w in words} if cyclic else {}, 20.0, False, False))
     total = 0
     maxadm = 0
     for job, res in zip(jobs, pmap(_run_case, jobs)):
